@@ -1,6 +1,7 @@
 import VsbModel.Props.C11
 import VsbModel.Props.C02
 import VsbModel.Lemmas.RestoreSingle
+import VsbModel.Lemmas.PathRoundTrip
 set_option linter.unusedSimpArgs false
 set_option linter.unusedSectionVars false
 
@@ -113,6 +114,16 @@ theorem restored_file (hashOf : List β → H) (group : List (Backup H β)) (tar
     ∃ fs, restore hashOf group target = .done fs true ∧
       fsGet fs (fpOf (Entry.file p m d : Entry β)) = some (.file d (some m)) :=
   ⟨fsOf es, restore_exact_selfcontained hashOf group target name es wf hb, fsGet_map_mem es nodeOf _ he wf.nodup⟩
+
+/-- **path_roundtrip.**  The path conditions of `WFArchive` hold for every entry whose path is spelled the way
+`vsb backup` spells it — normal components (non-empty, not `.` or `..`, free of `/`) joined by `/`: the archive
+spelling and the manifest spelling `/…` are both read back as exactly those components. -/
+theorem wf_paths_of_normal (e : Entry β) (fp : FPath) (h : NormalComps fp) (hp : e.path = "/".intercalate fp) :
+    tarPathToFile e.path = some (fpOf e) ∧ manifestPathToFile (keyOf (fpOf e)) = some (fpOf e) := by
+  have r := path_roundtrip fp h
+  have hf : fpOf e = fp := by unfold fpOf; rw [hp, r.1]; rfl
+  rw [hf, hp]
+  exact r
 
 /-- Non-vacuity: a small archive (ancestor directories, a file, an empty file, a symlink) passes the check. -/
 example : wfCheck ([.dir "var" {}, .dir "var/x" { mode := 493 }, .file "var/x/f" { mtime := -5 } [1, 2, 3],
